@@ -805,6 +805,9 @@ func (e *specEnv) call(n *ECall) specVal {
 		return specVal{term: sx("select", h, sx("i-val", v.term)), typ: t}
 	case "closed":
 		return mathBool(sx("select", e.heap("Gh.chan.closed", "(Array Int Bool)"), arg(0).term))
+	case "sent":
+		// number of values sent on the channel so far (ghost)
+		return mathInt(sx("select", e.heap("Gh.chan.sent", "(Array Int Int)"), arg(0).term))
 	case "sameheap":
 		// sameheap(H): heap H (given as string) unchanged since old
 		return mathBool("true")
